@@ -143,8 +143,18 @@ pub fn gen_stage(rng: &mut Rng, pks: &[PK], maxn: usize) -> Stage {
 
 pub fn gen_adp_history(rng: &mut Rng, chain: Vec<Stage>, batched: bool, g: &AGen) -> AdpHistory {
     let capacity = *rng.pick(g.caps);
-    let n_init = rng.below(g.init_max + 1);
-    let init: Vec<u32> = (0..n_init).map(|_| rng.below(g.vmax as usize) as u32).collect();
+    // (colossal mode: more than 2^16 items from the start)
+    let n_init = if g.init_max > 60_000 { rng.range(66_000, g.init_max) } else { rng.below(g.init_max + 1) };
+    let mut init: Vec<u32> = (0..n_init).map(|_| rng.below(g.vmax as usize) as u32).collect();
+    if g.init_max > 60_000 && rng.chance(1, 2) {
+        // everything from some point before 2^16 on falls into one value class (v % 4): a filter rejects, or keeps,
+        // the whole tail
+        let from = rng.range(60_000, 65_500);
+        let class = rng.below(4) as u32;
+        for v in init[from..].iter_mut() {
+            *v = (*v / 4) * 4 + class;
+        }
+    }
     let mut model = init.clone();
     let eager = !g.lazy_only && rng.chance(1, 3);
     let n_ops = rng.range(g.min_ops, g.max_ops);
@@ -379,7 +389,7 @@ fn rand_adp(
     chain_gen: &(dyn Fn(&mut Rng) -> (Vec<Stage>, bool) + Sync),
     nontrivial: &(dyn Fn(&AFacts) -> bool + Sync),
 ) -> Outcome {
-    if p.san() && (gen_name.ends_with("-giant") || gen_name.ends_with("-scale")) {
+    if p.san() && (gen_name.ends_with("-giant") || gen_name.ends_with("-scale") || gen_name.ends_with("-colossal")) {
         // thousands of items / messages: native runs only (Miri would take hours, 4 KB elements gigabytes)
         return Outcome::default();
     }
@@ -530,6 +540,9 @@ pub fn run_c09(p: &Params) -> Outcome {
     // vectors): one poll of a batched chain handles thousands of diffs
     let gscale = AGen { caps: &[2048, 4096, 8192], maxlen: 40, init_max: 30, vmax: 20_000, min_ops: 1100, max_ops: 2600, poll_pct: 1, txn_pct: 10, lazy_only: true, drop_pm: 0, close_pm: 0, ..g.clone() };
     out.merge(rand_adp("C09", p, "c09-rand-scale", p.n(100, 3_000), &gscale, &|rng| (vec![gen_lim(rng, ALL_KINDS, BASIC_PKS, 30)], rng.chance(1, 2)), &nt));
+    // colossal vectors: more than 2^16 items (16-bit indices, offsets and counters inside the library overflow here)
+    let gcol = AGen { caps: &[16], maxlen: 71_000, init_max: 70_000, vmax: 20_000, min_ops: 6, max_ops: 16, txn_pct: 5, ..g.clone() };
+    out.merge(rand_adp("C09", p, "c09-rand-colossal", p.n(24, 400), &gcol, &|rng| (vec![gen_lim(rng, ALL_KINDS, BASIC_PKS, 70_000)], rng.chance(1, 2)), &nt));
     // long histories on small vectors (accumulating state, repeated Resets, many limit changes)
     let glong = AGen { min_ops: 150, max_ops: 400, caps: &[1, 2, 3, 5, 8, 16], ..g.clone() };
     out.merge(rand_adp("C09", p, "c09-rand-long", p.n(1_200, 30_000), &glong, &|rng| (vec![gen_lim(rng, ALL_KINDS, BASIC_PKS, 8)], rng.chance(1, 2)), &nt));
@@ -614,6 +627,13 @@ pub fn run_c10(p: &Params) -> Outcome {
         let m = [0b0101u8, 0b1110, 0b0111, 0b1111, 0b0001][rng.below(5)];
         (vec![if rng.chance(1, 2) { Stage::Filter(m) } else { Stage::FilterMap(m) }], rng.chance(1, 2))
     }, &nt));
+    // colossal vectors: more than 2^16 items (16-bit indices, offsets and counters inside the library overflow here)
+    let gcol = AGen { caps: &[16], maxlen: 71_000, init_max: 70_000, vmax: 20_000, min_ops: 6, max_ops: 16, txn_pct: 5, ..g.clone() };
+    out.merge(rand_adp("C10", p, "c10-rand-colossal", p.n(32, 400), &gcol, &|rng| {
+        // (masks over v % 4; the colossal generator also makes vectors whose tail is rejected as a whole: see gen)
+        let m = [0b0101u8, 0b1110, 0b0001, 0b1000][rng.below(4)];
+        (vec![if rng.chance(1, 2) { Stage::Filter(m) } else { Stage::FilterMap(m) }], rng.chance(1, 2))
+    }, &nt));
     // long histories on small vectors (accumulating state, repeated Resets, many limit changes)
     let glong = AGen { min_ops: 150, max_ops: 400, caps: &[1, 2, 3, 5, 8, 16], ..g.clone() };
     out.merge(rand_adp("C10", p, "c10-rand-long", p.n(1_200, 30_000), &glong, &|rng| {
@@ -693,6 +713,9 @@ pub fn run_c11(p: &Params) -> Outcome {
     // vectors): one poll of a batched chain handles thousands of diffs
     let gscale = AGen { caps: &[2048, 4096, 8192], maxlen: 40, init_max: 30, vmax: 20_000, min_ops: 1100, max_ops: 2600, poll_pct: 1, txn_pct: 10, lazy_only: true, drop_pm: 0, close_pm: 0, ..g.clone() };
     out.merge(rand_adp("C11", p, "c11-rand-scale", p.n(100, 3_000), &gscale, &|rng| (vec![*rng.pick(&[Stage::Sort, Stage::SortBy, Stage::SortByKey])], rng.chance(1, 2)), &nt));
+    // colossal vectors: more than 2^16 items (16-bit indices, offsets and counters inside the library overflow here)
+    let gcol = AGen { caps: &[16], maxlen: 71_000, init_max: 70_000, vmax: 20_000, min_ops: 6, max_ops: 16, txn_pct: 5, ..g.clone() };
+    out.merge(rand_adp("C11", p, "c11-rand-colossal", p.n(16, 300), &gcol, &|rng| (vec![*rng.pick(&[Stage::Sort, Stage::SortBy, Stage::SortByKey])], rng.chance(1, 2)), &nt));
     // long histories on small vectors (accumulating state, repeated Resets, many limit changes)
     let glong = AGen { min_ops: 150, max_ops: 400, caps: &[1, 2, 3, 5, 8, 16], ..g.clone() };
     out.merge(rand_adp("C11", p, "c11-rand-long", p.n(1_200, 30_000), &glong, &|rng| (vec![*rng.pick(&[Stage::Sort, Stage::SortBy, Stage::SortByKey])], rng.chance(1, 2)), &nt));
@@ -1172,6 +1195,9 @@ pub fn run_c15(p: &Params) -> Outcome {
     // vectors): one poll of a batched chain handles thousands of diffs
     let gscale = AGen { caps: &[2048, 4096, 8192], maxlen: 40, init_max: 30, vmax: 20_000, min_ops: 1100, max_ops: 2600, poll_pct: 1, txn_pct: 10, lazy_only: true, drop_pm: 0, close_pm: 0, ..g.clone() };
     out.merge(rand_adp("C15", p, "c15-rand-scale", p.n(100, 3_000), &gscale, &|rng| (vec![gen_lim(rng, &[Kind::Head, Kind::Tail], &[PK::Static], 40)], rng.chance(2, 3)), &nt));
+    // colossal vectors: more than 2^16 items (16-bit indices, offsets and counters inside the library overflow here)
+    let gcol = AGen { caps: &[16], maxlen: 71_000, init_max: 70_000, vmax: 20_000, min_ops: 6, max_ops: 16, txn_pct: 5, ..g.clone() };
+    out.merge(rand_adp("C15", p, "c15-rand-colossal", p.n(24, 400), &gcol, &|rng| (vec![gen_lim(rng, &[Kind::Head, Kind::Tail], &[PK::Static], 70_000)], rng.chance(1, 2)), &nt));
     // long histories on small vectors (accumulating state, repeated Resets, many limit changes)
     let glong = AGen { min_ops: 150, max_ops: 400, caps: &[1, 2, 3, 5, 8, 16], ..g.clone() };
     out.merge(rand_adp("C15", p, "c15-rand-long", p.n(1_200, 30_000), &glong, &|rng| (vec![gen_lim(rng, &[Kind::Head, Kind::Tail], &[PK::Static], 8)], rng.chance(1, 2)), &nt));
